@@ -438,6 +438,7 @@ def run(tier):
     rule_R8(res, prog)
     rule_R9(res, prog)
     rule_R10(res, prog)
+    rule_R11(res, prog)
     res.floor("C19.R1", 150)
     res.floor("C19.R2", 3)
     res.floor("C19.R3", 30)
@@ -1413,4 +1414,48 @@ def rule_R10(res, prog):
                                                                 [p_[1] for p_ in bad[1][-6:-1]]), file=fn.relfile, line=ln)
                     res.instance(rid, "%s:%s memcpy(%s, sizeof(%s)): %d pointer member(s) overwritten before any release" % (
                         fn.name, ln, base, rec, len(pf)), bad is None, finding=f_)
+    res.floor(rid, 1)
+
+
+# functions that take ownership of an argument (confirmed by reading: they release it on their other failure paths and
+# their callers do not release it after a failure): name -> (parameter, releasing calls)
+OWNERSHIP_TAKERS = {
+    "matrixSslCreateIdentity": ("cert", ("psX509FreeCert", "matrixSslFreeIdentity")),
+}
+
+
+def rule_R11(res, prog):
+    """'nothing leaked once the application deletes its objects', for the reviewed ownership-taking constructors: every path
+    to a failure return (NULL) releases the argument the function owns - a failure of the function's OWN allocation included."""
+    from sa import cfgutil as cu
+    rid = "C19.R11"
+    res.rule(rid, "ownership-taking constructors release the owned argument on every failure return (reviewed table)")
+    for name, (param, rel) in sorted(OWNERSHIP_TAKERS.items()):
+        lst = prog.by_name.get(name)
+        if not lst:
+            raise AnalysisBroken("C19.R11: %s vanished" % name)
+        fn = lst[0]
+        if not any(p_.get("n") == param for p_ in fn.params):
+            raise AnalysisBroken("C19.R11: %s has no parameter %s" % (name, param))
+
+        def releases(x, rel=rel):
+            return any(m.get("k") == "call" and m.get("fn") in rel for m in walk(x))
+
+        def null_ret(x):
+            if x.get("k") != "ret" or x.get("e") is None:
+                return False
+            e = strip(x["e"])
+            while e is not None and e.get("k") == "cast":
+                e = strip(e["e"])
+            return e is not None and e.get("k") == "int" and e["v"] == 0
+        n_fail = len(cu.find_sites(fn, null_ret)) if hasattr(cu, "find_sites") else 0
+        esc = cu.escapes(fn, (fn.entry, None), releases, target_expr=null_ret)
+        f_ = None
+        if esc is not None:
+            f_ = Finding(PROP, rid, fn.name, "owned argument %s not released on a failure return" % param,
+                         "%s:%s %s(): `return NULL` is reached (via lines %s) without %s: the function owns `%s` (it releases it on its "
+                         "other failure paths and its callers do not), so the object stays allocated after the application deleted "
+                         "everything it holds" % (fn.relfile, esc[-1][1], fn.name, [p_[1] for p_ in esc[-5:-1]], " / ".join(rel), param),
+                         file=fn.relfile, line=esc[-1][1])
+        res.instance(rid, "%s: every NULL return releases `%s`" % (fn.name, param), esc is None, finding=f_)
     res.floor(rid, 1)
